@@ -1340,6 +1340,68 @@ XSLTEngineImpl::addResultAttribute(
                 fExcludeAttribute = true;
             }
         }
+        else
+        {
+            // Adding an attribute replaces any existing attribute with the
+            // same expanded name, so remove a pending attribute that has
+            // the same local name and another prefix for the same namespace.
+            const XalanDOMString::size_type     theNameLength = aname.length();
+
+            const XalanDOMString::size_type     theColonIndex =
+                indexOf(aname, XalanUnicode::charColon);
+
+            if (theColonIndex < theNameLength)
+            {
+                assert(m_executionContext != 0);
+
+                const ECGetCachedString     prefixGuard(*m_executionContext);
+
+                XalanDOMString&     thePrefix = prefixGuard.get();
+
+                substring(aname, thePrefix, 0, theColonIndex);
+
+                const XalanDOMString* const     theNamespace =
+                    getResultNamespaceForPrefix(thePrefix);
+
+                if (theNamespace != 0)
+                {
+                    const XalanDOMChar* const   theLocalName =
+                        aname.c_str() + theColonIndex + 1;
+
+                    for (XalanSize_t i = attList.getLength(); i > 0; --i)
+                    {
+                        const XalanDOMChar* const   theOtherName =
+                            attList.getName(i - 1);
+
+                        const XalanDOMString::size_type     theOtherLength =
+                            length(theOtherName);
+
+                        const XalanDOMString::size_type     theOtherColonIndex =
+                            indexOf(theOtherName, XalanUnicode::charColon);
+
+                        if (theOtherColonIndex < theOtherLength &&
+                            equals(theOtherName + theOtherColonIndex + 1, theLocalName) == true &&
+                            equals(theOtherName, aname.c_str()) == false)
+                        {
+                            thePrefix.assign(theOtherName, theOtherColonIndex);
+
+                            const XalanDOMString* const     theOtherNamespace =
+                                equals(thePrefix, DOMServices::s_XMLNamespace) == true ?
+                                    0 :
+                                    getResultNamespaceForPrefix(thePrefix);
+
+                            if (theOtherNamespace != 0 &&
+                                equals(*theOtherNamespace, *theNamespace) == true)
+                            {
+                                attList.removeAttribute(theOtherName);
+
+                                break;
+                            }
+                        }
+                    }
+                }
+            }
+        }
 
         if (fExcludeAttribute == false)
         {
@@ -2185,11 +2247,13 @@ XSLTEngineImpl::cloneToResultTree(
 
                 if(shouldCloneAttributes == true)
                 {
+                    // Copy the namespaces first, so that the prefixes of the
+                    // attributes can be resolved when they are added.
+                    copyNamespaceAttributes(node);
+
                     copyAttributesToAttList(
                         node,
                         getPendingAttributesImpl());
-
-                    copyNamespaceAttributes(node);
                 }
 
                 checkDefaultNamespace(theElementName, node.getNamespaceURI());
